@@ -109,6 +109,8 @@ def run(pid, tier, seed, replay, cfg, repo, env, scratch, t0):
         e.update({"VERIF_TIER": tier, "VERIF_SEED": str(seed), "VERIF_SHARD": str(s),
                   "VERIF_NSHARDS": str(nshards), "VERIF_OUT": scratch, "VERIF_REPO": repo,
                   "VERIF_SCRATCH": sdir})
+        for k, v in (cfg.get("env") or {}).items():
+            e[k] = v.replace("{shard_dir}", sdir)
         if replay:
             e["VERIF_REPLAY"] = replay
         else:
